@@ -485,6 +485,13 @@ def _run_rest(check, an: Analysis):
     from . import c07
     c07.check_immediacy(check, an, 'L6')
     check_exact_arithmetic(check, an, 'L5')
+    # `(time >= a) & (time >= b)`: a wait for a mix of dates ends only after the whole
+    # expression was seen true behind the last suspension (rule shared with C08)
+    from . import c08
+    for cqn in (c08.ALL, c08.ANY):
+        c08._check_exit_pred(check, an, an.callee(cqn, '__await_children__'),
+                             'Connective.__await_children__[%s]' % cqn.rsplit('.', 1)[-1],
+                             'L6')
     # ---- L9 -----------------------------------------------------------------
     from . import _scope, c03
     c03._check_signal_lifecycles(
@@ -1183,7 +1190,7 @@ def _check_plumbing_sites(check, an: Analysis):
                    'the duration is stored unchanged')
 
 
-def _check_optional_dates(check, an: Analysis):
+def _check_optional_dates(check, an: Analysis, rule: str = 'L7'):
     """parameters that carry an optional date/delay must not be tested by truthiness"""
     from . import _scope
     wrapper = _scope.wrapper_callee(an)
@@ -1203,14 +1210,14 @@ def _check_optional_dates(check, an: Analysis):
                 for atom in _truthiness_atoms(test):
                     if isinstance(atom, ast.Name) and atom.id in names:
                         n += 1
-                        check.instance('L7', '%s:truthiness(%s)' % (short(fn.qn), atom.id),
+                        check.instance(rule, '%s:truthiness(%s)' % (short(fn.qn), atom.id),
                                        False, '%s:%d' % (fn.module.relpath, test.lineno),
                                        'an optional date/delay is tested by truthiness: '
                                        '0 is a valid date (`%s`)' % ast.unparse(test))
         uses = [n2 for n2 in ast.walk(fn.node) if isinstance(n2, ast.Compare)
                 and isinstance(n2.ops[0], (ast.Is, ast.IsNot))
                 and isinstance(n2.left, ast.Name) and n2.left.id in names]
-        check.instance('L7', '%s:is-None-tests' % short(fn.qn), True, where_fn(fn),
+        check.instance(rule, '%s:is-None-tests' % short(fn.qn), True, where_fn(fn),
                        '%d `is None` tests on %s, no truthiness test' % (len(uses), names),
                        nontrivial=False, analysed=max(1, len(uses)))
 
